@@ -21,8 +21,10 @@ TRUSTED = [
     "phase-1 output and of update_tree(tree, labels, k) for EVERY site number k with the model, evaluated by vm_compute",
     "sympy.sympify / Rational.is_integer on products of 2, 3, 1/2, -1 (the chain stop rule) modelled by exact integer "
     "divisibility of numerator/denominator; str() of sympy Integers modelled as the decimal integer",
-    "phase 2 (update_sums) is NOT modelled: every output is validated numerically (independent mpmath evaluator, 12 generic "
-    "points) and by label/well-formedness checks in search()",
+    "phase 2 (update_sums) is NOT modelled: every output is checked for well-formedness and labels, validated numerically "
+    "(independent mpmath evaluator, 12 generic points) and, where the Coq-verified checker `certified` accepts it "
+    "(C11_certified_sound: ring normal form over syntactic atoms by the standard library's Ring_polynom + congruence), "
+    "certified equal to the original on the original's domain; certified / numeric-only counts are in the evidence",
     "harness/lib/liboracle.py (independent evaluator), harness/corr/c11_impl.py, the label encoder of this file, MPI stand-in",
 ]
 ASSUMPTIONS = [
@@ -81,6 +83,8 @@ Definition model_sites (b : basis) (l : list label) (n : nat) : list (list (list
   end.
 Definition chk_sites (c : case) : bool :=
   match c with (b, l, p1, ss) => list_eqb ll_eqb (model_sites b l (List.length ss)) ss end.
+Definition chk_cert (c : basis * list label * list label) : bool :=
+  match c with (b, l, r) => certified b l r end.
 """
 
 
@@ -172,30 +176,43 @@ def random_tree(rng, basis, n):
     return labels
 
 
+def tree_count(b, n):
+    """number of labelled trees with n nodes (2 nullary choices up to the renaming of parameters)"""
+    T = {1: 2}
+    for m in range(2, n + 1):
+        T[m] = len(b[1]) * T[m - 1] + len(b[2]) * sum(T[k] * T[m - 1 - k] for k in range(1, m - 1))
+    return T[n]
+
+
+def enum_job(rng, b, n, target=None, name=None):
+    cnt = tree_count(b, n)
+    stride = 1 if (target is None or cnt <= target) else -(-cnt // target)
+    j = {"basis": b, "enumerate": n, "stride": stride, "offset": rng.randrange(stride)}
+    if name:
+        j["name"] = name
+    return j
+
+
 def jobs_for(ctx):
     rng = esrv.rng(ctx.seed, "C11/inputs")
     quick = ctx.quick
     rb = random_bases(rng, 30 if quick else 40)
-    jobs = []
-    jobs.append({"basis": None, "corpus": True})
-    nship = 4 if quick else 5
+    jobs = [{"basis": None, "corpus": True}]
+    nship = 5 if quick else 6
     for name, b in SHIPPED.items():
         for n in range(1, nship + 1):
-            jobs.append({"basis": b, "enumerate": n, "name": name})
-    # larger complexities of the shipped bases that can rewrite at all
+            jobs.append(enum_job(rng, b, n, None, name))
+    # one complexity further for the shipped bases that can rewrite at all, strided
     for name in ("keep_duplicates", "ext_maths", "base_e_maths"):
-        b = SHIPPED[name]
-        if quick:
-            jobs.append({"basis": b, "enumerate": 5, "stride": 12 if name == "keep_duplicates" else 3, "offset": rng.randrange(12), "name": name})
-        else:
-            jobs.append({"basis": b, "enumerate": 6, "stride": 7 if name == "keep_duplicates" else 1, "offset": rng.randrange(7), "name": name})
+        jobs.append(enum_job(rng, SHIPPED[name], nship + 1, 1500 if quick else 6000, name))
     for b in rb:
         for n in range(1, 5):
-            jobs.append({"basis": b, "enumerate": n})
+            jobs.append(enum_job(rng, b, n))
+        jobs.append(enum_job(rng, b, 5, 300 if quick else None))
         if not quick:
-            jobs.append({"basis": b, "enumerate": 5, "stride": 1 + len(b[1]) ** 2 // 4, "offset": rng.randrange(1000)})
+            jobs.append(enum_job(rng, b, 6, 3000))
     # sampled trees at n = 7, 8 (and 9..12 in the thorough tier)
-    sizes = [(7, 160), (8, 160)] if quick else [(7, 1500), (8, 1500), (9, 400), (10, 300), (12, 200)]
+    sizes = [(7, 500), (8, 500)] if quick else [(7, 8000), (8, 8000), (9, 3000), (10, 2000), (12, 1000), (15, 300)]
     allb = list(SHIPPED.values()) + rb
     for n, cnt in sizes:
         per = collections.defaultdict(list)
@@ -222,8 +239,7 @@ def run_impl(ctx, jobs, full=True, workers=8):
     def cost(j):
         if "trees" in j:
             return len(j["trees"]) * 3
-        b, n = j["basis"], j["enumerate"]
-        return (max(1, len(b[1])) + len(b[2])) ** max(1, n - 2) * 2.0 ** n / j.get("stride", 1)
+        return 1 + tree_count(j["basis"], j["enumerate"]) * (0.1 + 1.0 / j.get("stride", 1))
     bins = [[] for _ in range(workers)]
     load = [0.0] * workers
     for j in sorted(flat, key=cost, reverse=True):
@@ -339,12 +355,13 @@ def correspondence(ctx):
                  input=[{"basis": r["basis"], "labels": r["labels"]} for r in bad],
                  observed={"impl": [{"p1": r["p1"], "sites": r.get("sites")} for r in bad], "model": diag, "coq": flat[-600:]},
                  theorem="Model/Rewrite.v phase1 / apply_site")
-    rep.rule = ("every tree of the 6 shipped bases at complexity <= %s and of %d random sub-bases (always + and *, random subset of "
-                "inv square cube sqrt_abs exp log_abs sin, random subset of - / pow) at complexity <= 4%s, strided enumeration at %s, "
-                "random trees at %s; past findings replayed; trees on which neither phase does anything are counted and 1 in 40 "
-                "of them compared; non-trivial = a site exists or something was rewritten"
-                % ("4" if ctx.quick else "5", len(rb), "" if ctx.quick else " (strided at 5)", "5" if ctx.quick else "6",
-                   "7, 8" if ctx.quick else "7, 8, 9, 10, 12"))
+    rep.rule = ("every tree of the 6 shipped bases at complexity <= %s (strided sample at %s for keep_duplicates, ext_maths, base_e_maths) "
+                "and of %d random sub-bases (always + and *, random subset of inv square cube sqrt_abs exp log_abs sin, random subset "
+                "of - / pow) at complexity <= %s (strided sample at %s); random trees at %s biased towards +/- and unary chains; past "
+                "findings replayed; trees on which neither phase does anything are counted and 1 in 40 of them compared; "
+                "non-trivial = a site exists or something was rewritten"
+                % ("5" if ctx.quick else "6", "6" if ctx.quick else "7", len(rb), "4" if ctx.quick else "5", "5" if ctx.quick else "6",
+                   "7, 8" if ctx.quick else "7, 8, 9, 10, 12, 15"))
     rep.extra["coq_cases"] = len(cases)
     rep.extra["corr_wall_s"] = round(time.time() - t0, 1)
 
@@ -365,9 +382,55 @@ def label_violation(L, basis, orig):
     return None
 
 
+def _moderate(t, x, th):
+    """Cheap float pre-evaluation of a parsed tree; False when some intermediate value is undefined or beyond 1e12:
+    towers of exp would make the multiprecision evaluator allocate unbounded integers, and sin of a huge argument has
+    no correct digits left at the working precision (50 digits; comparison tolerance 1e-12)."""
+    import math
+
+    def ev(t):
+        op = t[0]
+        if len(t) == 1:
+            if op == "x":
+                return x
+            if PAR.match(op):
+                return th[int(op[1:])]
+            return float(int(op))
+        u = ev(t[1])
+        if len(t) == 2:
+            v = {"inv": lambda: 1.0 / u, "square": lambda: u * u, "cube": lambda: u * u * u, "sqrt_abs": lambda: math.sqrt(abs(u)),
+                 "log_abs": lambda: math.log(abs(u)), "exp": lambda: math.exp(u), "sin": lambda: math.sin(u), "abs": lambda: abs(u),
+                 "tenexp": lambda: 10.0 ** u, "log10_abs": lambda: math.log10(abs(u))}[op]()
+        else:
+            w = ev(t[2])
+            v = {"+": lambda: u + w, "-": lambda: u - w, "*": lambda: u * w, "/": lambda: u / w,
+                 "pow": lambda: abs(u) ** w, "pow_abs": lambda: abs(u) ** w}[op]()
+        if not (abs(v) < 1e12):
+            raise OverflowError
+        return v
+    try:
+        ev(t)
+        return True
+    except (OverflowError, ZeroDivisionError, ValueError, KeyError, IndexError):
+        return False
+
+
 def search(ctx):
     sys.path.insert(0, os.path.join(esrv.VERIF, "harness", "lib"))
     import liboracle as lo
+    lo.mp.mp.dps = 50
+
+    def guarded(L):
+        t, _ = lo.parse_tree(L, 0)
+
+        def f(x, th):
+            if not _moderate(t, float(x), [float(v) for v in th]):
+                raise lo.Undefined("not moderate")
+            try:
+                return lo.eval_labels(L, x, th)
+            except MemoryError:
+                raise lo.Undefined("memory")
+        return f
     rep = ctx.report
     records = getattr(ctx, "c11_records", None)
     if records is None:
@@ -376,6 +439,7 @@ def search(ctx):
     rng = esrv.rng(ctx.seed, "C11/points")
     stats = collections.Counter()
     seen_keys = set()
+    phase2 = []
 
     def fail(key, what, r, **kw):
         stats["violations"] += 1
@@ -422,8 +486,7 @@ def search(ctx):
             if phase == 1 and params_of(L) != params_of(L0):
                 fail("C11:parameters", "phase 1 changed the set of parameters", r, observed=L, expected=sorted(params_of(L0)))
             pts = lo.gen_points(rng, npar, 12)
-            fa = lambda x, th: lo.eval_labels(L0, x, th)
-            fb = lambda x, th: lo.eval_labels(L, x, th)
+            fa, fb = guarded(L0), guarded(L)
             res, det = lo.same_function(fa, fb, pts)
             if res == "undecided":
                 res, det = lo.same_function(fa, fb, lo.gen_points(rng, npar, 60))
@@ -434,8 +497,41 @@ def search(ctx):
                 stats["undecided"] += 1
             else:
                 stats["numerically_equal"] += 1
+            if phase == 2:
+                phase2.append((r, L, res))
         if r.get("printed"):
             stats["not_kept_messages"] += len(r["printed"])
+    # ---- phase-2 outputs: per-instance certificates from the Coq-verified checker (C11_certified_sound)
+    cert_cases, cert_meta = [], []
+    for r, L, numeric in phase2:
+        try:
+            cert_cases.append("(%s, %s, %s)" % (enc_basis(r["basis"]), enc_labels(r["labels"]), enc_labels(L)))
+            cert_meta.append((r, L, numeric))
+        except Refuse:
+            stats["phase2_not_expressible"] += 1
+    shards = shard(list(zip(cert_cases, cert_meta)), 1500)
+    vts = [HEADER + "Definition cases : list (basis * list label * list label) := [\n%s].\n" % ";\n".join(c for c, _ in sh) +
+           'Eval vm_compute in ("CE"%string, failing chk_cert cases).\n' for sh in shards]
+    uncertified = []
+    for sh, (rc, flat) in zip(shards, coq_many(vts)):
+        idx = failing_idx(flat, "CE")
+        if rc != 0 or idx is None:
+            rep.fail("broken-correspondence", "the certificate file for the sum phase did not evaluate", "C11:cert-eval",
+                     observed=flat[-600:], theorem="Model/Rewrite.v certified")
+            continue
+        bad = set(idx)
+        for i, (_, (r, L, numeric)) in enumerate(sh):
+            if i in bad:
+                stats["phase2_numeric_only"] += 1
+                if len(uncertified) < 5:
+                    uncertified.append({"basis": r["basis"], "labels": r["labels"], "rewritten": L, "numeric": numeric})
+            else:
+                stats["phase2_certified"] += 1
+                if numeric == "diff":
+                    rep.fail("broken-correspondence", "the verified checker certifies a sum rewrite that the independent evaluator finds different "
+                             "(operator semantics of Model/Expr.v and liboracle disagree?)", "C11:cert-vs-numeric",
+                             input={"basis": r["basis"], "labels": r["labels"]}, observed=L, theorem="C11_certified_sound")
+    rep.extra["phase2_uncertified_samples"] = uncertified
     rep.extra["search_stats"] = dict(stats)
     rep.extra["max_wall_per_tree_s"] = getattr(ctx, "c11_counts", {}).get("max_t_full")
 
@@ -444,11 +540,13 @@ LEVEL_TEXT = ("Machine-checked theorems (Coq, over the standard library's real n
               "rewriting (update_tree and the first loop of find_additional_trees): for EVERY tree, basis and site, every produced tree is a "
               "well-formed prefix tree whose labels are labels of the original, integers or basis operators, has the same parameters, has the "
               "same domain of definition and the same value as the original at every (x, parameters), and the driver terminates within an "
-              "explicit bound. The model is compared with the real code (order included) on every explored tree and every site number on each run. "
-              "The 117 pinned tests never call this code.")
-LEVEL_NOTE = ("Trusted: Coq kernel/vm_compute; the Reals axioms (sig_forall_dec, sig_not_dec, functional_extensionality_dep); the hand-written model "
-              "(tie = exact correspondence, not a translator); sympy Rational arithmetic modelled by integer divisibility. NOT proved: update_sums "
-              "(phase 2) -- its outputs are validated one by one numerically and by label/shape checks; termination of phase 2 only by a wall-clock bound; "
-              "float rounding.")
+              "explicit bound (nle*npow+1 passes). The model is compared with the real code (order included) on every explored tree and every "
+              "site number on each run. Outputs of the sum-collection phase are certified one by one by a Coq-verified equality checker "
+              "(ring normal form + congruence) wherever it applies, and validated numerically. The 117 pinned tests never call this code.")
+LEVEL_NOTE = ("Trusted: Coq kernel/vm_compute; the Reals axioms (sig_forall_dec, sig_not_dec, functional_extensionality_dep, classic); the hand-written "
+              "model (tie = exact correspondence, not a translator); sympy Rational arithmetic modelled by integer divisibility. NOT proved: update_sums "
+              "(phase 2) for all inputs -- its outputs are certified/validated per instance on the explored inputs only; termination of phase 2 only by "
+              "a wall-clock bound; float rounding.")
 TECHNIQUE = ("Coq proof (contexts/zipper congruence, real-analysis identities for ln|.| and exp under power chains, potential-function termination "
-             "bound) over a hand model + exact correspondence with the real driver by vm_compute; independent mpmath evaluator for the search")
+             "bound) over a hand model + exact correspondence with the real driver by vm_compute; reflexive certificates (Ring_polynom) for sum "
+             "rewrites; independent mpmath evaluator for the search")
